@@ -491,7 +491,7 @@ class DB:
                         t = self.ann_type(c.module, ann)
                     elif isinstance(val, ast.Name) and val.id in ptypes:
                         t = ptypes[val.id]
-                    elif val is not None and f.name == "__init__":
+                    elif val is not None:
                         t = self._quick_type(c.module, val)
                     if t != ANY and (nm not in c.field_types or ann is not None):
                         c.field_types[nm] = t
